@@ -315,3 +315,280 @@ def w_advance(ctx, run, rule='R05.2', only=None, floor=None):
     if floor is not None:
         run.floor(rule, 'entry-reading loops / iterator bodies', rep.loops, floor)
     return rep
+
+
+# ------------------------------------------------------------------ W-INIT
+
+def count_atom(a):
+    """Is the atom `(header & CONTAINER_HEADER_LEN_MASK) as usize` (an element count read from a header)?"""
+    a = strip_casts(a)
+    return a[0] == 'bin' and a[1] == 'BitAnd' and any(x[0] == 'const' and x[1] == 0x1FFFFFFF for x in (a[2], a[3]))
+
+
+def step_fn_roles(ctx):
+    """For local functions with `&mut usize` cursor parameters that read entry words: {fn: {param idx: 'entry'|'payload'}}"""
+    f = ctx.facts
+    out = {}
+    for p, b in f.bodies.items():
+        if b.kind == 'Promoted' or not (p.startswith('functions::') or p.startswith('iterator::')):
+            continue
+        cur = [i for i in range(1, b.argc + 1) if b.local_ty(i).get('k') == 'ref' and b.local_ty(i).get('mut') and b.local_ty(i)['inner'].get('s') == 'usize']
+        if not cur:
+            continue
+        ex = Explorer(b, max_paths=2000)
+        paths = ex.explore()
+        roles = {}
+        for q in paths:
+            for (E, B, off, e) in entry_reads(q):
+                for s in subterms(off):
+                    if s[0] == 'deref' and s[1][0] == 'init' and s[1][1] in cur:
+                        roles[s[1][1]] = 'entry'
+            for e in q.calls():
+                if called(e[1], 'Index::index', 'functions::escape_scalar_string', 'functions::extract_by_jentry'):
+                    for a in e[2][1:]:
+                        for s in subterms(a):
+                            if s[0] == 'deref' and s[1][0] == 'init' and s[1][1] in cur and roles.get(s[1][1]) != 'entry':
+                                roles[s[1][1]] = 'payload'
+        if roles:
+            out[p] = roles
+    return out
+
+
+def w_init(ctx, run, rule='R05.1', only=None, floor=None):
+    f = ctx.facts
+    steps = step_fn_roles(ctx)
+    n = 0
+    for b in walker_functions(ctx):
+        if only is not None and not only(b.path):
+            continue
+        loops = natural_loops(b)
+        if not loops:
+            continue
+        ex = Explorer(b, max_paths=3000)
+        regions = {s: ex.explore(start=s, stop=set(loops)) for s in [0] + sorted(loops)}
+        all_paths = [p for ps in regions.values() for p in ps]
+        # roles of named usize locals
+        entry_bufs = {}     # local -> set(buffers) read through it
+        payload_bufs = {}   # local -> set(buffers) sliced with it
+        advanced_in = {}    # local -> set(loop heads) in which it is advanced
+        for h, ps in regions.items():
+            for q in ps:
+                def locals_in(t):
+                    return {s[1] for s in subterms(t) if s[0] in ('hav', 'init') and b.name_of(s[1]) and b.local_ty(s[1]).get('s') == 'usize'}
+                for e in q.calls():
+                    if called(e[1], 'functions::read_u32', 'iterator::read_u32') and len(e[2]) == 2:
+                        for l in locals_in(e[2][1]):
+                            entry_bufs.setdefault(l, set()).add(base_of(e[2][0]))
+                    elif called(e[1], 'Index::index') and len(e[2]) == 2:
+                        for l in locals_in(e[2][1]):
+                            payload_bufs.setdefault(l, set()).add(base_of(e[2][0]))
+                    elif called(e[1], 'functions::extract_by_jentry') and len(e[2]) == 4:
+                        for l in locals_in(e[2][2]):
+                            payload_bufs.setdefault(l, set()).add(base_of(e[2][3]))
+                    elif called(e[1], 'functions::escape_scalar_string') and len(e[2]) == 4:
+                        for l in locals_in(e[2][1]):
+                            payload_bufs.setdefault(l, set()).add(base_of(e[2][0]))
+                    else:
+                        c = e[5]['callee']
+                        tgt = c.get('resolved') if c.get('resolved_local') else None
+                        if tgt in steps:
+                            buf = None
+                            for i, a in enumerate(e[2]):
+                                ty = f.bodies[tgt].local_ty(i + 1)
+                                if ty.get('k') == 'ref' and ty.get('inner', {}).get('s') == '[u8]':
+                                    buf = base_of(a)
+                            for i, a in enumerate(e[2]):
+                                role = steps[tgt].get(i + 1)
+                                if role is None:
+                                    continue
+                                a0 = a
+                                if a0[0] == 'ref' and a0[1][0] == 'loc' and a0[1][1][0] == 'L':
+                                    l = a0[1][1][1]
+                                    (entry_bufs if role == 'entry' else payload_bufs).setdefault(l, set()).add(buf)
+                                    if h != 0:
+                                        advanced_in.setdefault(l, set()).add(h)
+                if h != 0 and q.end[0] in ('backedge', 'stop') and q.end[1] == h:
+                    reads = {E: B for (E, B, off, e) in entry_reads(q)}
+                    for ck, (name, start, end) in cursor_deltas(b, q).items():
+                        dl = lin_sub(lin(end), lin(start))
+                        if ck[0] == 'L' and dl != ({}, 0):
+                            advanced_in.setdefault(ck[1], set()).add(h)
+                            lens, rest = length_atoms(dl)
+                            for E in lens:
+                                if E in reads:
+                                    payload_bufs.setdefault(ck[1], set()).add(reads[E])
+        if not entry_bufs:
+            continue
+        # initial values: value of the cursor when a loop that advances it is first reached from the function entry
+        inits = {}
+        for q in regions[0]:
+            if q.end[0] != 'stop':
+                continue
+            for l in set(entry_bufs) | set(payload_bufs):
+                v = q.store.get(('L', l))
+                if v is None or any(s[0] in ('hav',) for s in subterms(v)):
+                    continue
+                inits.setdefault(l, set()).add(v)
+        for v_local, vbufs in sorted(payload_bufs.items()):
+            if v_local in entry_bufs and not any(count_atom(a) for iv in inits.get(v_local, []) for a in lin(iv)[0]):
+                continue   # a cursor reused first as entry cursor (object_each's `offset`)
+            for j_local, jbufs in sorted(entry_bufs.items()):
+                if j_local == v_local or not (vbufs & jbufs):
+                    continue
+                # only cursors that walk together (advanced in a common loop) are paired
+                if not (advanced_in.get(v_local, set()) & advanced_in.get(j_local, set())):
+                    common = False
+                    for h in advanced_in.get(j_local, set()):
+                        for q in regions.get(h, []):
+                            if any(s[0] in ('hav', 'init') and s[1] == v_local for e in q.calls() for a in e[2] for s in subterms(a)):
+                                common = True
+                    if not common:
+                        continue
+                for vi in inits.get(v_local, []):
+                    for ji in inits.get(j_local, []):
+                        d = lin_sub(lin(vi), lin(ji))
+                        counts = {a: c for a, c in d[0].items() if count_atom(a)}
+                        others = {a: c for a, c in d[0].items() if not count_atom(a)}
+                        if not counts:
+                            continue
+                        n += 1
+                        # top-level loops in which the entry cursor is advanced
+                        hs = advanced_in.get(j_local, set())
+                        top = [h for h in hs if not any(h != h2 and h in loops[h2] for h2 in hs)]
+                        phases = len(top)
+                        kind = container_kind(ctx, b, regions, hs)
+                        if kind is None:
+                            run.undecided(rule, b.path, f'init[{b.name_of(v_local)} - {b.name_of(j_local)}]', 'the container kind walked here is not established by a dominating header-tag test in this function or at all its call sites')
+                            continue
+                        want = 8 if kind == 'object' else 4
+                        desc = f'init[{b.name_of(v_local)} - {b.name_of(j_local)}]'
+                        loc = f'{b.file}:{b.line}'
+                        if len(counts) == 1 and not others and d[1] == 0 and list(counts.values())[0] == want:
+                            run.proved(rule, b.path, desc, f'= {want} × element count: the payload area starts right after the {"2n" if want == 8 else "n"} entry words', loc)
+                        else:
+                            run.violation(rule, b.path, desc,
+                                          f'the payload cursor starts {show_lin(d)} bytes after the entry cursor; the layout puts it {want} × count bytes after '
+                                          f'({"an object has 2n" if want == 8 else "an array has n"} entry words of 4 bytes)', loc)
+    # iterator constructors
+    table = {
+        'iterator::iterate_array': {'jentry_offset': (0, 4), 'val_offset': (4, 4)},
+        'iterator::iteate_object_keys': {'jentry_offset': (0, 4), 'key_offset': (8, 4)},
+        'iterator::iterate_object_entries': {'jentry_offset': (0, 4), 'key_offset': (8, 4), 'val_offset': (8, 4)},
+    }
+    for fn, fields in table.items():
+        if only is not None and not only(fn):
+            continue
+        b = f.bodies.get(fn)
+        if b is None:
+            run.violation(rule, fn, 'init', 'iterator constructor not found (anchor lost)')
+            continue
+        ps = [q for q in Explorer(b).explore() if q.end[0] == 'return']
+        for q in ps:
+            r = q.ret
+            if not (agg_variant(r)):
+                run.violation(rule, fn, 'init', f'constructor does not return a struct literal: {show(r)[:80]}', f'{b.file}:{b.line}')
+                continue
+            adt = f.adts.get(r[1][1])
+            names = [fl['name'] for fl in adt['variants'][0]['fields']] if adt else []
+            for fname, (c, k) in fields.items():
+                if fname not in names:
+                    run.violation(rule, fn, f'init[{fname}]', 'field not found (anchor lost)', f'{b.file}:{b.line}')
+                    continue
+                n += 1
+                val = r[2][names.index(fname)]
+                l = lin(val)
+                counts = {a: cc for a, cc in l[0].items() if count_atom(a)}
+                others = {a: cc for a, cc in l[0].items() if not count_atom(a)}
+                ok = (not others) and l[1] == k and ((c == 0 and not counts) or (len(counts) == 1 and list(counts.values())[0] == c))
+                if ok:
+                    run.proved(rule, fn, f'init[{fname}]', f'= {k}' + (f' + {c} × count' if c else ''), f'{b.file}:{b.line}')
+                else:
+                    run.violation(rule, fn, f'init[{fname}]', f'starts at {show_lin(l)}, the layout requires {k}' + (f' + {c} × count' if c else ''), f'{b.file}:{b.line}')
+    if floor is not None:
+        run.floor(rule, 'cursor initialisations checked against the layout', n, floor)
+    return n
+
+
+ARRAY_TAG, OBJECT_TAG, TYPE_MASK = 0x80000000, 0x40000000, 0xE0000000
+
+
+def kind_from_conds(conds):
+    kinds = set()
+    for c in conds:
+        t = c[0]
+        if t[0] == 'bin' and t[1] == 'BitAnd' and any(x[0] == 'const' and x[1] == TYPE_MASK for x in (t[2], t[3])) and c[1] == 'eq':
+            if c[2] == ARRAY_TAG:
+                kinds.add('array')
+            elif c[2] == OBJECT_TAG:
+                kinds.add('object')
+    return kinds
+
+
+_kind_cache = {}
+
+
+def container_kind(ctx, b, regions, heads, depth=0):
+    """'array' | 'object' | None: the header kind established on every path that reaches the walker loops."""
+    kinds = set()
+    unknown = False
+    for q in regions.get(0, []):
+        if q.end[0] == 'stop' and q.end[1] in heads:
+            k = kind_from_conds(q.conds)
+            if len(k) == 1:
+                kinds |= k
+            elif len(k) == 0:
+                unknown = True
+            else:
+                # both tags tested on the path (two documents): fine if they agree
+                kinds |= k
+    if kinds and not unknown and len(kinds) == 1:
+        return next(iter(kinds))
+    if depth > 2:
+        return None
+    # infer from the call sites
+    key = b.path
+    if key in _kind_cache:
+        return _kind_cache[key]
+    _kind_cache[key] = None
+    f = ctx.facts
+    cg = ctx.cg
+    ks = set()
+    sites = 0
+    for caller, tgts in cg.edges.items():
+        if b.path not in tgts or caller == b.path:
+            continue
+        cb = f.bodies[caller]
+        cl = natural_loops(cb)
+        ex = Explorer(cb, max_paths=3000)
+        for s0 in [0] + sorted(cl):
+            for q in ex.explore(start=s0, stop=set(cl)):
+                for e in q.calls():
+                    c = e[5]['callee']
+                    r = c.get('resolved') if c.get('resolved_local') else (c.get('written') if c.get('local') else None)
+                    if r != b.path:
+                        continue
+                    sites += 1
+                    k = kind_from_conds(q.conds[:e[6]])
+                    if len(k) == 1:
+                        ks |= k
+                    elif s0 != 0 or len(k) == 0:
+                        # inside a loop region the earlier tag test is not on this path: ask the caller's own kind
+                        kk = container_kind(ctx, cb, {0: ex.explore(start=0, stop=set(cl))}, {s0}, depth + 1) if s0 != 0 else None
+                        if kk:
+                            ks.add(kk)
+                        else:
+                            ks.add('?')
+                    else:
+                        ks |= k
+    res = next(iter(ks)) if len(ks) == 1 and '?' not in ks else None
+    _kind_cache[key] = res
+    return res
+
+
+def show_lin(l):
+    parts = []
+    for a, c in l[0].items():
+        parts.append((f'{c} × ' if c != 1 else '') + ('count' if count_atom(a) else show(a)[:40]))
+    if l[1] or not parts:
+        parts.append(str(l[1]))
+    return ' + '.join(parts)
